@@ -97,6 +97,18 @@ def structures(rng):
                      proj=["Te:p"], soc=False, heavy=2),
         "Te_p_soc": dict(lat=_hex(1, ca), pos=[[u, 0, 0], [0, u, 1 / 3], [-u, -u, 2 / 3]], names=["Te"] * 3,
                          proj=["Te:p"], soc=True, heavy=3),
+        # two or three DIFFERENT multi-site blocks whose sites are permuted differently (off-diagonal block pairs)
+        "p4mmm_2f_2g": dict(lat=np.diag([1, 1, ca]), pos=[[0, .5, 0], [.5, 0, 0], [0, 0, x], [0, 0, -x]],
+                            names=["A", "A", "B", "B"], proj=["A:s", "B:p"], soc=False, heavy=1, multiblock=True),
+        "p4mmm_4i_2g": dict(lat=np.diag([1, 1, ca]), pos=[[0, .5, x], [.5, 0, x], [0, .5, -x], [.5, 0, -x], [0, 0, u], [0, 0, -u]],
+                            names=["A"] * 4 + ["B"] * 2, proj=["A:s", "B:s"], soc=False, heavy=1, multiblock=True),
+        "p4mmm_2g_2f_soc": dict(lat=np.diag([1, 1, ca]), pos=[[0, 0, x], [0, 0, -x], [0, .5, 0], [.5, 0, 0]],
+                                names=["B", "B", "A", "A"], proj=["B:s", "A:s"], soc=True, heavy=1, multiblock=True),
+        "hex_2c_3f": dict(lat=_hex(1, ca), pos=[[1 / 3, 2 / 3, 0], [2 / 3, 1 / 3, 0], [.5, 0, 0], [0, .5, 0], [.5, .5, 0]],
+                          names=["A", "A", "B", "B", "B"], proj=["A:p", "B:s"], soc=False, heavy=2, multiblock=True),
+        "sc_3c_3d_1a": dict(lat=np.eye(3), pos=[[0, .5, .5], [.5, 0, .5], [.5, .5, 0], [.5, 0, 0], [0, .5, 0], [0, 0, .5],
+                                               [0, 0, 0]],
+                            names=["A"] * 3 + ["B"] * 3 + ["C"], proj=["A:s", "B:s", "C:p"], soc=False, heavy=9, multiblock=True),
         "hex_A_p": dict(lat=_hex(1, ca), pos=[[0, 0, 0]], names=["A"], proj=["A:p"], soc=False, heavy=1),
         "hex_AB2_p": dict(lat=_hex(1, ca), pos=[[0, 0, 0], [1 / 3, 2 / 3, 0], [2 / 3, 1 / 3, 0]], names=["A", "B", "B"],
                           proj=["A:p", "B:p"], soc=False, heavy=2),
@@ -791,8 +803,8 @@ def check_structure(ctx, name, st, sub_seed, n_k, max_g, n_sub=2, tower=True, ro
 
 
 def pick_structures(ctx, rng, scale):
-    """quick tier: a stratified sample (one with p/d shells on a 3-/6-fold site, one magnetic, one non-magnetic spinor,
-    one with fractional translations, one further light structure); thorough tier: the whole catalogue"""
+    """quick tier: a stratified sample (one with two or three different multi-site projection blocks, one with p/d shells on a 3-/6-fold site, one magnetic, one non-magnetic spinor,
+    one with fractional translations, one with several different multi-site blocks); thorough tier: the whole catalogue"""
     S = structures(rng)
     names = list(S)
     if ctx.tier == "quick":
@@ -804,9 +816,8 @@ def pick_structures(ctx, rng, scale):
             spinor = [n for n in light if S[n]["soc"] and S[n].get("magmom") is None]
             frac = [n for n in ("Te_s", "hcp_s", "afm_tet", "hex_2site_pz") if n in light]
             mixing = [n for n in ("hex_A_p", "hex_AB2_p", "hex_A_d", "Te_p") if n in names]
-            pick = [rng.choice(mixing), rng.choice(mag), rng.choice(spinor), rng.choice(frac)]
-            rest = [n for n in light if n not in pick]
-            pick += rng.sample(rest, 1)
+            multi = [n for n in names if S[n].get("multiblock") and S[n]["heavy"] <= 2]
+            pick = [rng.choice(mixing), rng.choice(mag), rng.choice(spinor), rng.choice(frac), rng.choice(multi)]
             chosen += list(dict.fromkeys(pick))
     else:
         chosen = (names + [n for n in names if S[n]["heavy"] <= 3]) * scale   # a second random model for all but the heaviest
@@ -864,6 +875,9 @@ def oracle(ctx, scale):
         # quick tier: the option sweep (3 subgroups) on the first three structures of the stratified sample only
         # thorough tier: the first model of every structure gets the full option sweep, the second one a light one
         n_sub = (2 if i < len(S) else 0) if ctx.tier == "thorough" else (3 if i % 5 < 3 else 0)
+        multiblock = bool(S[name].get("multiblock"))
+        if multiblock:        # many blocks make every symmetrize2 call expensive: full group + one subgroup at most
+            n_sub = min(n_sub, 1)
         check_structure(ctx, name, S[name], sub, n_k=ctx.n(2, 3), max_g=ctx.n(6, 48), n_sub=n_sub,
                         tower=ctx.tier == "thorough")
         if ctx.failures and not ctx.searching:
@@ -873,7 +887,7 @@ def oracle(ctx, scale):
         if (ctx.tier == "thorough" and i < len(S) and S[name]["heavy"] <= 3) or \
                 (ctx.tier == "quick" and (n_sub == 0 or i % 5 == 0)):
             check_structure(ctx, name, S[name], rng.getrandbits(40), n_k=ctx.n(1, 2), max_g=ctx.n(6, 48),
-                            n_sub=1, tower=False, route="symmetrize2",
+                            n_sub=0 if multiblock else 1, tower=False, route="symmetrize2",
                             include_TR=(i % 2 == 0))
         if ctx.failures and not ctx.searching:
             break
@@ -1081,6 +1095,9 @@ def corr(ctx):
     chosen = rng.sample(light, min(len(light), ctx.n(3, 8)))
     if not any(not S[n]["soc"] for n in chosen):
         chosen[-1] = rng.choice([n for n in light if not S[n]["soc"]])
+    if not any(S[n].get("multiblock") for n in chosen):
+        # off-diagonal pairs of different multi-site blocks: every ORDERED block pair is compared below
+        chosen[0] = rng.choice([n for n in light if S[n].get("multiblock")])
     lines, expect, tags = [], [], []
     for name in chosen:
         st = S[name]
